@@ -9,7 +9,7 @@ evaluates the direct predicates on the implementation's observations:
     height (cut at its BPCOUNT) -- the set IsBlockValid uses for the next block;
   * a restarted node has the same producer set as the running one.
 Returns a list of {"key", "what", "replay"}; keys start with the caller's property id.  Failures
-whose signature is the known finding F23 (same ranking cut at another BPCOUNT) are returned under
+whose signature is the known finding F34 (g5 numbering F23; same ranking cut at another BPCOUNT) are returned under
 the key "<id>:bp-snapshot-bpcount-from-memory" so that the caller can list it as known."""
 import importlib.util
 import json
@@ -30,7 +30,7 @@ def run_election_family(ctx, include_f23=False):
     continued past the next boundary, both arrival orders) on the real NewStatus/bp.Snapshots/
     GetRankers of ctx's tree and return the producer-set findings as a list of
     {"key", "what", "replay"}; keys "<ctx.id>:producer-set-not-function-of-chain" and
-    "<ctx.id>:producer-set-differs-after-restart" (the F23 class, same ranking cut at another
+    "<ctx.id>:producer-set-differs-after-restart" (the F34 class (g5 numbering F23), same ranking cut at another
     BPCOUNT, only with include_f23=True as "<ctx.id>:bp-snapshot-bpcount-from-memory").
     Empty list on an unchanged tree."""
     c08 = _c08()
